@@ -87,3 +87,8 @@ MUTANTS += [
     ("c17-main-reg-not-required", "C17", DC, '            raise ValueError("main_reg is required for deref object")', '            return DerefObject(main_reg="", constant_offset=None, register_multiplier=None, constant_multiplier=None)'),
     ("c17-negative-times-ignored", "C17", PB, '                        raise ValueError(f"times must not be negative: {times}")', '                        return TimesType(_min_times=1, _max_times=1)'),
 ]
+
+MUTANTS += [
+    ("c02-deref-times-capturing", "C05", "jasm_regex/tree_generators/pattern_node_implementations/deref.py", 'return f"(?:{deref_regex},){times_regex}"', 'return f"({deref_regex},){times_regex}"'),
+    ("c02-deref-times-dropped", "C02", "jasm_regex/tree_generators/pattern_node_implementations/deref.py", 'return f"(?:{deref_regex},){times_regex}"', 'return f"{deref_regex},"'),
+]
